@@ -70,8 +70,9 @@ fn set_accept(m: &Md, s: &St) -> (Vec<u8>, Vec<u8>, u16) {
 }
 
 #[derive(Clone, Copy, Debug, PartialEq)]
-enum Kind { Ipa, Group, Matrix, Syll }
-const KINDS: [Kind; 4] = [Kind::Ipa, Kind::Group, Kind::Matrix, Kind::Syll];
+/// Set: the group as the first alternative of a two-member set, in the input and in the output (`{V:[m], k} > {[+nasal], k}`, `{V, k} > {[m], k}`)
+enum Kind { Ipa, Group, Matrix, Syll, Set }
+const KINDS: [Kind; 5] = [Kind::Ipa, Kind::Group, Kind::Matrix, Kind::Syll, Kind::Set];
 
 fn elem_text(k: Kind, m: Option<&Md>) -> String {
     let mods = m.map(md_text).unwrap_or_default();
@@ -80,12 +81,15 @@ fn elem_text(k: Kind, m: Option<&Md>) -> String {
         Kind::Group => if mods.is_empty() { "V".into() } else { format!("V:[{}]", mods.join(", ")) },
         Kind::Matrix => { let mut v = vec!["+syll".to_string()]; v.extend(mods); format!("[{}]", v.join(", ")) }
         Kind::Syll => if mods.is_empty() { "%".into() } else { format!("%:[{}]", mods.join(", ")) },
+        Kind::Set => if mods.is_empty() { "{V, k}".into() } else { format!("{{V:[{}], k}}", mods.join(", ")) },
     }
 }
 fn rule_text(k: Kind, input_role: bool, m: &Md) -> String {
     if input_role {
-        let marker = if k == Kind::Syll { "[tone:7]" } else { "[+nasal]" };
+        let marker = if k == Kind::Syll { "[tone:7]" } else if k == Kind::Set { "{[+nasal], k}" } else { "[+nasal]" };
         format!("{} > {}", elem_text(k, Some(m)), marker)
+    } else if k == Kind::Set {
+        format!("{} > {{[{}], k}}", elem_text(k, None), md_text(m).join(", "))
     } else {
         format!("{} > [{}]", elem_text(k, None), md_text(m).join(", "))
     }
@@ -220,7 +224,7 @@ pub fn run() -> i32 {
     // ---- box 2: the same modifiers on an element of the environment: before the target (matched on the mirrored word) and after it, as a
     // context and as an exception. `k > [+voice] / E:[m] _` on /t3.sn<a-run>.k/ and `t > [+voice] / _ E:[m]` on /t3.<a-run>sn.k/
     let mut ejobs: Vec<(Kind, Md, u8)> = vec![];
-    for k in KINDS { for m in all_mods(k != Kind::Syll) { if contradictory(&m) { continue; } for side in 0..4u8 { ejobs.push((k, m, side)); } } }
+    for k in KINDS { if k == Kind::Set { continue; } for m in all_mods(k != Kind::Syll) { if contradictory(&m) { continue; } for side in 0..4u8 { ejobs.push((k, m, side)); } } }
     let mut te = acc();
     par_fold(ejobs.len(), 8, acc, |i, a| {
         let (k, m, side) = ejobs[i];
